@@ -155,6 +155,10 @@ func checkC04(c *Ctx) {
 	// every deal still opens under its addressee's key only
 	nameSets := [][]string{{"Alice", "alice", "bob"}, {"carol", "carol ", "CAROL", " carol"}, {"node", "node_", "node_1", "Node_1"}}
 	Parallel(len(nameSets), 4, func(i int) { runC04Names(c, nameSets[i], c.Seed*151+uint64(i)) })
+	// (h) nonces of the signatures made with the long-term key (sequential: UseOpLog is process-wide)
+	for i := 0; i < c.Pick(2, 8); i++ {
+		runC04Nonces(c, c.Seed*163+uint64(i))
+	}
 	// (g) user names re-bound to other machines between two rounds
 	Parallel(c.Pick(2, 12), 4, func(i int) { runC04Swapped(c, c.Seed*157+uint64(i)) })
 }
@@ -240,6 +244,147 @@ func runC04Swapped(c *Ctx, seed uint64) {
 		c.Inconclusive("no deal was posted in the round after the swap (states %v)", ce2.States())
 	} else if !ce2.AllIn(StIdle) {
 		c.Violate("C04/addressee-cannot-open-its-deal", fmt.Sprintf("the round after the swap does not complete: %v", ce2.States()), wit)
+	}
+}
+
+// schnorrMonitor watches the Schnorr signatures a dealer makes with its long-term key (inside the deals
+// its machine hands out). Two sound rules, each of which would let the reader of the signature compute
+// the private key: (1) the same commitment R under two different responses s (one nonce, two messages);
+// (2) R equal to a public point of the signer (long-term public key, a broadcast polynomial commitment):
+// then the nonce is a secret whose public image is known and s = k + h*x gives x.
+type schnorrMonitor struct {
+	seenR  map[string]string // dealer|R -> s
+	public map[string]string // point -> what it is
+	sigs   int
+}
+
+func newSchnorrMonitor() *schnorrMonitor {
+	return &schnorrMonitor{seenR: map[string]string{}, public: map[string]string{}}
+}
+
+func (sm *schnorrMonitor) observe(c *Ctx, dealer, where string, sig []byte, wit map[string]interface{}) {
+	if len(sig) <= 32 {
+		return
+	}
+	sm.sigs++
+	R, sv := hex.EncodeToString(sig[:len(sig)-32]), hex.EncodeToString(sig[len(sig)-32:])
+	if what, ok := sm.public[R]; ok {
+		c.Violate("C04/signature-nonce-is-a-secret-with-a-public-image", fmt.Sprintf("%s: the commitment R of a Schnorr signature by %s equals %s, so the signature reveals that secret (and with it the long-term private key)", where, dealer, what), wit)
+	}
+	if prev, ok := sm.seenR[dealer+"|"+R]; ok && prev != sv {
+		c.Violate("C04/signature-nonce-reused-for-another-message", fmt.Sprintf("%s: %s signed two different messages with the same nonce: the long-term private key follows from the two signatures", where, dealer), wit)
+	}
+	sm.seenR[dealer+"|"+R] = sv
+}
+
+// observeDeals opens every deal of the round with its addressee's key and feeds the signatures inside.
+func (sm *schnorrMonitor) observeDeals(c *Ctx, w *world.World, round string, sks []kyber.Scalar, wit map[string]interface{}) {
+	suite := oracle.NewSuite()
+	for _, m := range BoardMsgs(w, round, EvDeal) {
+		var r requests.DKGProposalDealConfirmationRequest
+		if json.Unmarshal(m.Data, &r) != nil || string(r.Deal) == "self-confirm" {
+			continue
+		}
+		for i, nd := range w.Nodes {
+			if nd.Name != m.RecipientAddr {
+				continue
+			}
+			plain, err := ecies.Decrypt(suite, sks[i], r.Deal, suite.Hash)
+			if err != nil {
+				continue
+			}
+			var d struct {
+				Index     uint32
+				Deal      struct{ DHKey, Signature, Nonce, Cipher []byte }
+				Signature []byte
+			}
+			if json.Unmarshal(plain, &d) != nil {
+				continue
+			}
+			where := fmt.Sprintf("deal %s -> %s of round %s", m.SenderAddr, m.RecipientAddr, trunc(round, 8))
+			sm.observe(c, m.SenderAddr, where+" (signature over the deal)", d.Signature, wit)
+			sm.observe(c, m.SenderAddr, where+" (signature over the ephemeral key)", d.Deal.Signature, wit)
+		}
+	}
+}
+
+// runC04Nonces: two rounds on the same machines with every machine stopped and reopened from its
+// database in between (keys loaded, not generated, in the process that runs the second round).
+func runC04Nonces(c *Ctx, seed uint64) {
+	n, t := 3, 2
+	wit := map[string]interface{}{"family": "signature nonces; machines restarted between two rounds", "n": n, "t": t, "case_seed": seed}
+	w, err := world.NewWorld(world.Options{N: n, T: t, Seed: seed})
+	if err != nil {
+		c.Inconclusive("world: %v", err)
+		return
+	}
+	defer w.Close()
+	suite := oracle.NewSuite()
+	sm := newSchnorrMonitor()
+	sks := make([]kyber.Scalar, n)
+	for i, nd := range w.Nodes {
+		sks[i] = oracle.LongTermKey(oracle.SeedFromMnemonic(nd.Mnemonic))
+		pub := nd.Cold.GetPubKey()
+		if !suite.Point().Mul(sks[i], nil).Equal(pub) {
+			c.Inconclusive("long-term key of %s does not validate", nd.Name)
+			return
+		}
+		sm.public[hex.EncodeToString(oracle.PointBytes(pub))] = "the long-term public key of " + nd.Name
+	}
+	world.UseOpLog = true
+	defer func() { world.UseOpLog = false }()
+	for k := 0; k < 2; k++ {
+		ce := &Ceremony{W: w, N: n, T: t}
+		if k == 1 {
+			// in the second round one machine is additionally stopped in the middle of the deals step (result
+			// computed, nothing logged), reopened and replayed: what it publishes afterwards is observed too
+			done := false
+			w.ColdHook = func(nd *world.Node, op *types.Operation) (*types.Operation, error) {
+				if !done && nd.Idx == int(seed%uint64(n)) && string(op.Type) == OpDeals {
+					done = true
+					if in, err := world.JSONRoundTrip(op); err == nil {
+						_, _ = nd.Cold.GetOperationResult(*in)
+					}
+					if _, _, _, err := restartMachine(w, nd, op.DKGIdentifier, 3000); err != nil {
+						return nil, err
+					}
+				}
+				return nil, nil
+			}
+		}
+		if ce.Round, err = w.StartDKG(k, t, now().Add(time.Duration(k)*time.Second)); err != nil {
+			c.Inconclusive("start %d: %v", k, err)
+			return
+		}
+		w.Run(world.RandomPolicy, 6000)
+		if !ce.AllIn(StIdle) {
+			c.Inconclusive("round %d: %v", k, ce.States())
+			return
+		}
+		for _, m := range BoardMsgs(w, ce.Round, EvCommit) {
+			var r requests.DKGProposalCommitConfirmationRequest
+			var cs [][]byte
+			if json.Unmarshal(m.Data, &r) == nil && json.Unmarshal(r.Commit, &cs) == nil {
+				for j, p := range cs {
+					sm.public[hex.EncodeToString(p)] = fmt.Sprintf("commitment %d broadcast by %s", j, m.SenderAddr)
+				}
+			}
+		}
+		sm.observeDeals(c, w, ce.Round, sks, wit)
+		if k == 0 {
+			for i, nd := range w.Nodes {
+				if _, _, _, err := restartMachine(w, nd, ce.Round, 2000+i); err != nil {
+					c.Inconclusive("machine restart: %v", err)
+					return
+				}
+			}
+		}
+	}
+	c.Eval(1)
+	c.Add("schnorr_signatures_observed", sm.sigs)
+	c.Distinct("signature-nonces|restart-between-rounds")
+	if sm.sigs == 0 {
+		c.Inconclusive("no signature could be read from the deals")
 	}
 }
 
